@@ -15,6 +15,9 @@ package main
 import (
 	"bytes"
 	"context"
+	"crypto/ecdsa"
+	"crypto/elliptic"
+	crand "crypto/rand"
 	"crypto/tls"
 	"crypto/x509"
 	"encoding/json"
@@ -22,6 +25,7 @@ import (
 	"fmt"
 	"hash/fnv"
 	"math/big"
+	"net/url"
 	"math/rand"
 	"os"
 	"os/exec"
@@ -166,13 +170,17 @@ var c12PoolDef = []c12Info{
 	{Hash: "h6", Names: []string{"c.x", "*.x"}},
 	{Hash: "h7", Names: []string{"d.y", "a.x", "*.b.x"}, Managed: true, IssuerKey: "i1"},
 	{Hash: "h8", Names: []string{"*.*.x", "a.x", "a.x", "*.*"}},
+	// names that are not in lower case / carry surrounding space (the cache keys its index by the
+	// certificate's names VERBATIM; the library's own loader lower-cases all but URI SANs)
+	{Hash: "h9", Names: []string{"Up.X", " pad.x ", "SPIFFE://Example.org/ns/Prod"}},
 }
 
 // which pool certificates have a fresh OCSP staple / newer ARI in storage
 var c12Staple = map[string]int64{"h2": 102, "h3": 103, "h6": 106, "h8": 108}
 var c12Meta = map[string]bool{"h3": true, "h4": true}
 
-var c12Queries = []string{"a.x", "b.x", "c.x", "q.x", "d.y", "x", "a.b.x", "*.x", "q.r.x", ""}
+var c12Queries = []string{"a.x", "b.x", "c.x", "q.x", "d.y", "x", "a.b.x", "*.x", "q.r.x", "", "Up.X", "up.x", " pad.x ", "pad.x", "real.example",
+	"spiffe://example.org/ns/Prod/sa/Billing", "spiffe://example.org/ns/prod/sa/billing"}
 
 func c12PoolByHash(h string) *c12Info {
 	for i := range c12PoolDef {
@@ -252,6 +260,39 @@ func newC12EnvI(interval time.Duration) (*c12Env, error) {
 				store[key] = res
 			}
 		}
+		// a REAL leaf with an upper-case URI SAN, cached through the library's own loader
+		// (Config.CacheUnmanagedTLSCertificate -> fillCertFromLeaf), operation "addreal"
+		{
+			k, err := ecdsa.GenerateKey(elliptic.P256(), crand.Reader)
+			if err != nil {
+				return nil, err
+			}
+			u, _ := url.Parse("spiffe://example.org/ns/Prod/sa/Billing")
+			tpl := &x509.Certificate{SerialNumber: big.NewInt(987654), NotBefore: now.Add(-time.Hour), NotAfter: now.Add(90 * 24 * time.Hour),
+				KeyUsage: x509.KeyUsageDigitalSignature, ExtKeyUsage: []x509.ExtKeyUsage{x509.ExtKeyUsageServerAuth}, BasicConstraintsValid: true,
+				DNSNames: []string{"real.example"}, URIs: []*url.URL{u}}
+			der, err := x509.CreateCertificate(crand.Reader, tpl, ca.Cert, &k.PublicKey, ca.Key)
+			if err != nil {
+				return nil, err
+			}
+			leaf, err := x509.ParseCertificate(der)
+			if err != nil {
+				return nil, err
+			}
+			tc := tls.Certificate{Certificate: [][]byte{der, ca.Cert.Raw}, PrivateKey: k, Leaf: leaf}
+			hh := blake3.New()
+			for _, c := range tc.Certificate {
+				hh.Write(c)
+			}
+			info := c12Info{Hash: fmt.Sprintf("%x", hh.Sum(nil)), Names: []string{"real.example", u.String()}}
+			chains[info.Hash] = tc
+			var b bytes.Buffer
+			for _, d := range tc.Certificate {
+				pem.Encode(&b, &pem.Block{Type: "CERTIFICATE", Bytes: d})
+			}
+			pems[info.Hash] = b.Bytes()
+			c12Proto.real, c12Proto.realInfo = tc, info
+		}
 		c12Proto.chains, c12Proto.pems, c12Proto.store = chains, pems, store
 	}
 	env.chains, env.pems = c12Proto.chains, c12Proto.pems
@@ -262,6 +303,8 @@ func newC12EnvI(interval time.Duration) (*c12Env, error) {
 }
 
 var c12Proto struct {
+	real     tls.Certificate // a real leaf (DNS name + upper-case URI SAN)
+	realInfo c12Info         // its hash (blake3 of the DER chain, computed here) and the names the leaf carries
 	mu     sync.Mutex
 	chains map[string]tls.Certificate
 	pems   map[string][]byte
@@ -469,6 +512,34 @@ func (env *c12Env) exec(op *c12Op) (steps []c12Step, err error) {
 		encCert(e, c)
 		encVictim(e, v)
 		emitStep(fmt.Sprintf("Add(%s tags=%v) victim=%q", c.Hash, c.Tags, v), e)
+	case "addreal":
+		// the library's own loader on a real leaf: the abstract operation is the insertion of the
+		// certificate the LEAF describes (hash = blake3 of the chain, names as the leaf carries them)
+		c := c12Proto.realInfo
+		if op.Cert != nil {
+			c.Tags = op.Cert.Tags
+		}
+		if _, err := env.cfg.CacheUnmanagedTLSCertificate(context.Background(), c12Proto.real, c.Tags); err != nil {
+			return nil, fmt.Errorf("CacheUnmanagedTLSCertificate(real leaf): %v", err)
+		}
+		after := env.snap()
+		v := ""
+		if !cached[c.Hash] {
+			v = c12Victim(before, after, "")
+			if v != "" {
+				env.feat["evict"]++
+			}
+		} else {
+			env.feat["readd"]++
+			if len(c.Tags) > 0 {
+				env.feat["tagmerge"]++
+			}
+		}
+		env.feat["real_leaf_loaded"]++
+		e := (&emit.Enc{}).Int(0)
+		encCert(e, c)
+		encVictim(e, v)
+		emitStep(fmt.Sprintf("Add(real leaf %s names=%v tags=%v) victim=%q", c.Hash[:8], c.Names, c.Tags, v), e)
 	case "rmcert":
 		c := *op.Cert
 		env.cache.VerifRemoveCertificate(env.mk(c))
@@ -804,6 +875,12 @@ func (env *c12Env) execRaw(op *c12Op) {
 	switch op.Kind {
 	case "add":
 		env.cache.VerifCacheCertificate(env.mk(*op.Cert))
+	case "addreal":
+		var tags []string
+		if op.Cert != nil {
+			tags = op.Cert.Tags
+		}
+		env.cfg.CacheUnmanagedTLSCertificate(context.Background(), c12Proto.real, tags)
 	case "rmcert":
 		env.cache.VerifRemoveCertificate(env.mk(*op.Cert))
 	case "replace":
@@ -1019,6 +1096,13 @@ func c12Alphabet() []c12Op {
 		{Kind: "add", Cert: c12PM("h1", true, "i1", "t4")},
 		{Kind: "add", Cert: c12PM("h1", true, "i2")},
 		{Kind: "add", Cert: c12PM("h2", false, "", "t6")},
+		// names not in lower case / space-padded; a real leaf with an upper-case URI SAN
+		{Kind: "add", Cert: c12P("h9")},
+		{Kind: "add", Cert: c12P("h9", "t1")},
+		{Kind: "remove", Hashes: []string{"h9"}},
+		{Kind: "addreal"},
+		{Kind: "addreal", Cert: &c12Info{Tags: []string{"t2"}}},
+		{Kind: "remove", Hashes: []string{c12Proto.realInfo.Hash}},
 		{Kind: "rmcert", Cert: c12P("h1")},
 		{Kind: "rmcert", Cert: c12P("h2")},
 		{Kind: "rmcert", Cert: c12P("h4")},
@@ -1094,6 +1178,9 @@ func c12RandHist(r *rand.Rand, env *c12Env) c12Hist {
 	simple = func(sim *c12Snap) c12Op {
 		switch x := r.Intn(100); {
 		case x < 45:
+			if r.Intn(12) == 0 {
+				return c12Op{Kind: "addreal", Cert: &c12Info{Tags: tagsets[r.Intn(len(tagsets))]}}
+			}
 			return c12Op{Kind: "add", Cert: poolCert()}
 		case x < 56:
 			return c12Op{Kind: "rmcert", Cert: copyOf(sim)}
